@@ -337,7 +337,7 @@ def answer {α : Type} (obsOf : α → String) (obs : String) (outs : List α) (
 
 /-- sequential run of one goroutine: `ok` / `panic` / `block` per call.  A panic is followed by the lock state it
 leaves behind (`writer readers pending`) and `frozen` when the internal mutex stays locked (then nothing can ever be
-granted again, `C17_panic_freezes_lock_state`) -/
+granted again; the repaired code never does that: `C17_panic_releases_internal_mutex`) -/
 def seqSm : Cfg Mx Th → List Op → List String
   | _, [] => []
   | c, op :: ops =>
